@@ -203,7 +203,7 @@ def crash_summary(rc, err):
     return "EXIT %d %s" % (rc, err.strip().split("\n")[-1][:200] if err.strip() else "")
 
 
-def run_cases(binary, cases, env_extra=None, shards=NCPU):
+def run_cases(binary, cases, env_extra=None, shards=NCPU, timeout_case=None):
     env = dict(os.environ)
     env.update(SAN_ENV)
     if env_extra:
@@ -214,7 +214,9 @@ def run_cases(binary, cases, env_extra=None, shards=NCPU):
     size = (len(cases) + n - 1) // n
     parts = [cases[i:i + size] for i in range(0, len(cases), size)]
     with cf.ThreadPoolExecutor(len(parts)) as ex:
-        res = list(ex.map(lambda c: _run_shard(binary, c, env), parts))
+        # the extracted model is orders of magnitude slower than the C code on large inputs (Gallina AES/PBKDF2)
+        tc = timeout_case if timeout_case is not None else (400 if os.path.basename(binary) == "driver" else 20)
+        res = list(ex.map(lambda c: _run_shard(binary, c, env, tc), parts))
     out = []
     for r in res:
         out.extend(r)
